@@ -101,32 +101,22 @@ Print Assumptions C08_otto_define_keeps_invariant.
    clamps and otto's own arrayDefineOwnProperty; ES5 is the same step lists around the ES5 clamps and 15.4.5.1.
    For every method of the table (join pop push reverse shift slice splice unshift indexOf lastIndexOf every some
    forEach map filter reduce reduceRight concat toString toLocaleString), every receiver state (array or array-like, any length value,
-   holes, inherited index properties), every argument list and every callback script, exchanging the clamps
+   holes, inherited index properties, a counted length getter), every argument list and every callback script,
+   exchanging the clamps
    changes neither the result nor the receiver nor the callback log, whatever [[DefineOwnProperty]] is used;
-   C08_define_refines above relates the two [[DefineOwnProperty]] functions. *)
+   C08_define_refines above relates the two [[DefineOwnProperty]] functions.  There is no other difference left
+   between the model of otto and ES5 (toString calls join without arguments and the callback methods read length
+   before the IsCallable test in both, since 4b9c107 and fcc8076). *)
 Theorem C08_methods_refine :
-  otto = with_otto_clamps otto_def_array true true /\ es5 = with_es5_clamps def_array false false /\
-  forall df ts cf m args s,
-    match method (with_otto_clamps df ts cf) m, method (with_es5_clamps df ts cf) m with
+  otto = with_otto_clamps otto_def_array /\ es5 = with_es5_clamps def_array /\
+  forall df m args s,
+    match method (with_otto_clamps df) m, method (with_es5_clamps df) m with
     | Some f1, Some f2 => f1 args s = f2 args s
     | None, None => True
     | _, _ => False
     end.
 Proof. split; [reflexivity | split; [reflexivity | exact methods_clamps]]. Qed.
 Print Assumptions C08_methods_refine.
-
-(* the two places where builtin_array.go is not the step list (the two booleans above), with witnesses:
-   [1,2].toString("-") joins with "-", and forEach(1) on a receiver with a length getter never reads length *)
-Theorem C08_tostring_args_refuted : exists args s, m_tostring otto args s <> m_tostring es5 args s.
-Proof.
-  exists [AV (VStr [45])], (mkS (lit_obj [] [Some (VNum 1); Some (VNum 2)]) [] [] false). vm_compute. discriminate.
-Qed.
-Print Assumptions C08_tostring_args_refuted.
-Theorem C08_length_read_order_refuted : exists args s, m_foreach otto args s <> m_foreach es5 args s.
-Proof.
-  exists [AV (VNum 1)], (mkS (mkO false true [(KLen, mkP (VNum 2) true true true)] []) [] [] true). vm_compute. discriminate.
-Qed.
-Print Assumptions C08_length_read_order_refuted.
 
 (* ToString(n) of every integer n >= 0 is classified as the name KI n (so the 15.4.4 algorithms, which
    address elements by ToString(k), address exactly KI k), it is an array index exactly when n < 2^32 - 1,
